@@ -29,7 +29,7 @@ US = timedelta(microseconds=1)
 
 def plan(tier, seed):
     k = 8 if tier == "quick" else 64
-    return [{"kind": "affine", "sub": i, "n": 2500 if tier == "quick" else 20000} for i in range(k)] + [{"kind": "repo-tests", "part": "time"}]
+    return [{"kind": "affine", "sub": i, "n": 2500 if tier == "quick" else 20000} for i in range(k)] + [{"kind": "repo-tests", "part": "time"}, {"kind": "insitu-exports", "n": 150 if tier == "quick" else 2000}]
 
 
 def floors(tier):
@@ -127,6 +127,14 @@ def worker(ctx, shard):
 
         tm.uninstall(); lm.uninstall()
         workload_r.judge(ctx, shard["part"])
+        return
+    if shard["kind"] == "insitu-exports":
+        from props import export_common as EC
+
+        lm.uninstall()
+        EC.insitu_exports(ctx, tm, lambda: tm.events["eval.__call__"] + tm.events["eval.invert"], shard["n"], scale_kind="time")
+        ctx.event("insitu.TimeScale.eval.__call__", tm.events["eval.__call__"])
+        tm.uninstall()
         return
     rng = ctx.rng("affine%d" % shard["sub"])
     for _ in range(shard["n"]):
